@@ -35,6 +35,9 @@ type Net struct {
 	Latency func(c *Conn) time.Duration
 	// OnDial is called (on the dialling task) for every dial attempt.
 	OnDial func(fromNode, toNode, addr string)
+	// OnDeliver is called on the scheduler goroutine right after a chunk has been
+	// delivered to endpoint c (fault placement by delivery count).
+	OnDeliver func(c *Conn)
 	// OnConn is called when a connection pair has been established.
 	OnConn func(client, server *Conn)
 	// RefuseAll makes every dial fail (network outage)
@@ -521,6 +524,9 @@ func (c *Conn) Write(p []byte) (int, error) {
 		}
 		peer.mu.Unlock()
 		peer.signal()
+		if f := c.net.OnDeliver; f != nil {
+			f(peer)
+		}
 	})
 	return len(p), nil
 }
